@@ -933,7 +933,7 @@ Section Reparse.
       - rewrite (after_login_name_port ipq c sch login' h (dec16 port) path Hhb Hhc Hpc'), Hpd. apply Hfin. }
     rewrite Hup. destruct (split_last 64 (ui ++ h ++ pp)) as [[a b]|].
     - subst b. eexists. apply Hal.
-    - eexists. apply Hal.
+    - rewrite Hsl. cbn [app]. eexists. apply Hal.
   Qed.
 
   (* corollary: the canonical form of such a URI value is a fixed point *)
